@@ -246,6 +246,11 @@ def flp : P String := do
     -- … or the (certified or returned) weights are of order > 1e6, where a 1e-7 absolute tolerance on φ is below double precision
     let blown := decide (maxAbs w > 10^6) || decide (maxAbs x > 10^6)
     if tiny && decide (gap > tol7 * sc) && (decide (gap ≤ (1 / 10^5) * sc) || blown) then return "skip ill_conditioned" else
+    -- the φ column of the point lp_solve returned bounds the TRUE max-norm error of the returned weights (`factoredLP_equiv`: the
+    -- rows force φ ≥ |Σ w C(s) − b(s)| at every joint s); a φ below it means some joint assignment is covered by no constraint
+    let phiLP := rec.point.getD phi 0
+    let v := v.failIf (rec.point.length > phi && decide (phiW > phiLP + (1 / 10^6) * sc))
+      s!"FactoredLP lp_phi_below_true_error phi_column={ratStr phiLP} maxerr={ratStr phiW}"
     let v := v.failIf (decide (gap > tol7 * sc)) s!"FactoredLP {kind} maxerr={ratStr phiW} flat_optimum={ratStr opt}"
     return v.render
 
